@@ -92,6 +92,7 @@ HllSketchImpl<A>* HllSketchImplFactory<A>::deserialize(std::istream& is, const A
 template<typename A>
 HllSketchImpl<A>* HllSketchImplFactory<A>::deserialize(const void* bytes, size_t len, const A& allocator) {
   // read current mode directly
+  if (len < 1) throw std::out_of_range("Input data length insufficient to hold an HLL sketch");
   const uint8_t preInts = static_cast<const uint8_t*>(bytes)[0];
   if (preInts == hll_constants::HLL_PREINTS) {
     return HllArray<A>::newHll(bytes, len, allocator);
